@@ -131,6 +131,14 @@ func Join(fs ...func()) {
 	}
 }
 
+// CallTimeout runs f on its own controlled thread and waits at most d of
+// simulated time for it; false means f has not returned (it keeps running).
+func CallTimeout(d time.Duration, f func()) bool {
+	done := false
+	Go(func() { f(); done = true })
+	return WaitUntil(time.Millisecond, d, func() bool { return done })
+}
+
 // WaitUntil polls cond every step of simulated time until it holds or max elapses.
 func WaitUntil(step, max time.Duration, cond func() bool) bool {
 	for waited := time.Duration(0); ; waited += step {
